@@ -164,6 +164,7 @@ do_init(const char *dir)
     int i;
     config_set_str(c, "hmm", dir);
     config_set_str(c, "loglevel", "FATAL");
+    config_set_bool(c, "mmap", !read_mode);
     for (i = 0; i < nset; ++i)
         config_set_str(c, set_k[i], set_v[i]);
     return decoder_init(c); /* consumes c, also when it fails */
@@ -239,6 +240,8 @@ do_decode(decoder_t *d)
     int rv;
     if (jsgf_path == NULL || audio_path == NULL)
         return;
+    fprintf(vt_out, "{\"e\":\"begin\",\"what\":\"decode\"}\n");
+    fflush(vt_out);
     rv = decoder_set_jsgf_file(d, jsgf_path);
     if (rv != 0) {
         fprintf(vt_out, "{\"e\":\"decode\",\"jsgf\":%d,\"utt\":-9,\"hyp\":\"\",\"expect\":\"\"}\n", rv);
